@@ -108,6 +108,12 @@ def build_seed(kind, path):
             h.add_data({"v0": {"depth": np.arange(4.0) + 0.5, "values": np.arange(4.0) + 10 * i}}, property_group="dtab")
             h.add_data({"iv": {"from-to": np.c_[np.arange(3.0), np.arange(3.0) + 1], "values": np.arange(3.0) + 100 * i}}, property_group="itab")
         gen.build_object(ws, "Points", parent=g, rng=rng, name="pts", base=5)
+        # ordinary children of the drillhole group itself, and the integrator classes (their constructors complete a type
+        # that lacks its description)
+        dh.add_comment("remark on the drillhole group", author="me")
+        dh.add_file(b"hole,x,y\n", name="collars.csv")
+        gen.build_object(ws, "IntegratorPoints", parent=g, rng=rng, name="ipts", base=7)
+        gen.build_object(ws, "NeighbourhoodSurface", parent=None, rng=rng, name="nsurf", base=9)
     ws.close()
 
 
@@ -317,7 +323,7 @@ def run_case(case, rec):
                 else:
                     del node[name]
             drop = described_uids(desc, intact, raw)
-            opened, damaged, err = False, None, None
+            opened, damaged, err, listing_err = False, None, None, None
             ws = None
             try:
                 ws = Workspace(work, mode="r")
@@ -328,6 +334,14 @@ def run_case(case, rec):
                     if "children" in rcd:
                         rcd["children"] = [c.lower() for c in rcd["children"]]
                 opened = True
+                # an opened workspace is one whose listings can be read (they sweep entities nobody holds any more)
+                try:
+                    gc.collect()
+                    _ = (len(ws.objects), len(ws.groups), len(ws.data), len(ws.types))
+                except Exception as exc:  # noqa: BLE001
+                    if not exc_origin(exc)[0] and not isinstance(exc, (OSError, KeyError)):
+                        raise
+                    listing_err = f"{type(exc).__name__}: {str(exc)[:150]}"
             except Exception as exc:  # noqa: BLE001
                 if not exc_origin(exc)[0] and not isinstance(exc, (OSError, KeyError)):
                     raise
@@ -347,6 +361,8 @@ def run_case(case, rec):
                     rec.evals["C19.mandatory-or-unclassified-raises"] += 1
                 continue
             rec.see("opened-damaged-files")
+            if cls == "optional":
+                rec.check("C19.listing-raises", listing_err is None, op=where, cls=nkind, attr=attr, detail=f"after deleting {what} {name!r} of {gpath} the file opens, but reading the workspace listings raises {listing_err}")
             # getters of undescribed entities that raise in the damaged copy count as altered content
             # a described entity that comes back under another identifier is still the described entity
             gone = {(intact[u]["cls"], intact[u]["attrs"].get("name")) for u in drop if u in intact}
